@@ -5,7 +5,7 @@
   `after_number_or_float`, `in_path`).  `next_token` bumps one byte, dispatches on it to a sub-lexer, and
   returns `Lexeme { len, kind }`.  Past the end of the input `nth` returns the sentinel `EOF = 0x0`, and
   `next_token` maps a first byte equal to the sentinel to `Kind::Eof` — *also when that byte is a real NUL
-  inside the text* (lexer.rs:18, :89-:91).  This file mirrors exactly that; `nextTokenWith false` is the
+  inside the text* (lexer.rs:18, :87-:89).  This file mirrors exactly that; `nextTokenWith false` is the
   lexer with the proposed fix (fixes/C13-nul.patch: end of input is decided by position).
 
   Core Lean only (linked into the native driver).
@@ -96,12 +96,12 @@ def fromKeyword (word : List UInt8) : Option Kind :=
   | some (_, k) => some (.kw k)
   | none => none
 
-/-- lexer.rs:34 `enum ExpectingPath` -/
+/-- lexer.rs:33 `enum ExpectingPath` -/
 inductive ExpectingPath where
   | ready | sawInclude | inPath
   deriving DecidableEq, Repr, Inhabited
 
-/-- lexer.rs:49 `ExpectingPath::transition` -/
+/-- lexer.rs:47 `ExpectingPath::transition` -/
 def ExpectingPath.transition : ExpectingPath → Kind → ExpectingPath
   | .ready, .includeKw => .sawInclude
   | .sawInclude, .lparen => .inPath
@@ -116,11 +116,11 @@ structure LexState where
   inPath : ExpectingPath := .ready
   deriving Repr, Inhabited
 
-/-- lexer.rs:71 `Lexer::nth`: the byte at `pos + i`, or the sentinel past the end -/
+/-- lexer.rs:70 `Lexer::nth`: the byte at `pos + i`, or the sentinel past the end -/
 def nth (inp : Bytes) (pos i : Nat) : UInt8 :=
   if h : pos + i < inp.size then inp[pos + i] else EOF
 
-/-- lexer.rs:79 `Lexer::bump`: advance by one byte unless at the end -/
+/-- lexer.rs:78 `Lexer::bump`: advance by one byte unless at the end -/
 def bump (inp : Bytes) (pos : Nat) : Nat :=
   if pos < inp.size then pos + 1 else pos
 
@@ -144,12 +144,12 @@ decreasing_by
   simp only [bump, hlt, if_true]
   omega
 
--- byte classes (lexer.rs:271-:282 and the `u8::is_ascii_*` helpers)
+-- byte classes (lexer.rs:283-:294 and the `u8::is_ascii_*` helpers)
 
-/-- lexer.rs:280 `is_ascii_whitespace` -/
+/-- lexer.rs:292 `is_ascii_whitespace` -/
 def isAsciiWhitespace (b : UInt8) : Bool := b == 0x20 || (0x9 ≤ b && b ≤ 0xD)
 
-/-- lexer.rs:272 `is_special`: `' ( ) * + , -   ; < = > ? @   [ \ ]   {   }` -/
+/-- lexer.rs:284 `is_special`: `' ( ) * + , -   ; < = > ? @   [ \ ]   {   }` -/
 def isSpecial (b : UInt8) : Bool :=
   (39 ≤ b && b ≤ 45) || (59 ≤ b && b ≤ 64) || (91 ≤ b && b ≤ 93) || b == 123 || b == 125
 
@@ -157,13 +157,13 @@ def isDigit (b : UInt8) : Bool := 0x30 ≤ b && b ≤ 0x39
 def isOctDigit (b : UInt8) : Bool := 0x30 ≤ b && b ≤ 0x37
 def isHexDigit (b : UInt8) : Bool := isDigit b || (0x41 ≤ b && b ≤ 0x46) || (0x61 ≤ b && b ≤ 0x66)
 
-/-- lexer.rs:142 `comment`: `while ![b'\n', b'\r', EOF].contains(&self.nth(0))` -/
+/-- lexer.rs:136 `comment`: `while ![b'\n', b'\r', EOF].contains(&self.nth(0))` -/
 def commentCont (b : UInt8) : Bool := !(b == 0x0A || b == 0x0D || b == EOF)
-/-- lexer.rs:149 `string`: continue unless `"` or EOF -/
+/-- lexer.rs:143 `string`: continue unless `"` or EOF -/
 def stringCont (b : UInt8) : Bool := !(b == 0x22 || b == EOF)
-/-- lexer.rs:236 `eat_ident`: stop on EOF, whitespace, or a special byte other than `-` -/
+/-- lexer.rs:232 `eat_ident`: stop on EOF, whitespace, or a special byte other than `-` -/
 def identCont (b : UInt8) : Bool := !(b == EOF) && !isAsciiWhitespace b && (b == 0x2D || !isSpecial b)
-/-- lexer.rs:263 `path`: `while !matches!(self.nth(0), EOF | b')')` -/
+/-- lexer.rs:258 `path`: `while !matches!(self.nth(0), EOF | b')')` -/
 def pathCont (b : UInt8) : Bool := !(b == EOF || b == 0x29)
 
 theorem isAsciiWhitespace_eof : isAsciiWhitespace EOF = false := by decide
@@ -175,20 +175,20 @@ theorem stringCont_eof : stringCont EOF = false := by decide
 theorem identCont_eof : identCont EOF = false := by decide
 theorem pathCont_eof : pathCont EOF = false := by decide
 
-/-- lexer.rs:135 -/
+/-- lexer.rs:129 `whitespace` -/
 def whitespace (inp : Bytes) (pos : Nat) : Kind × Nat :=
   (.whitespace, eatWhile isAsciiWhitespace isAsciiWhitespace_eof inp pos)
 
-/-- lexer.rs:142 -/
+/-- lexer.rs:136 `comment` -/
 def comment (inp : Bytes) (pos : Nat) : Kind × Nat :=
   (.comment, eatWhile commentCont commentCont_eof inp pos)
 
-/-- lexer.rs:149: skip to the next `"` (consumed, `String`) or to EOF (`StringUnterminated`) -/
+/-- lexer.rs:143 `string`: skip to the next `"` (consumed, `String`) or to EOF (`StringUnterminated`) -/
 def string (inp : Bytes) (pos : Nat) : Kind × Nat :=
   let p := eatWhile stringCont stringCont_eof inp pos
   if nth inp p 0 == 0x22 then (.string, bump inp p) else (.stringUnterminated, p)
 
-/-- lexer.rs:182 `number(leading_zero)`; `pos` is just after the first digit -/
+/-- lexer.rs:176 `number(leading_zero)`; `pos` is just after the first digit -/
 def number (inp : Bytes) (pos : Nat) (leadingZero : Bool) : Kind × Nat :=
   if leadingZero && nth inp pos 0 != 0x2E then
     if nth inp pos 0 == 0x78 || nth inp pos 0 == 0x58 then
@@ -200,33 +200,33 @@ def number (inp : Bytes) (pos : Nat) (leadingZero : Bool) : Kind × Nat :=
     let p := eatWhile isDigit isDigit_eof inp pos
     if nth inp p 0 == 0x2E then (.float, eatWhile isDigit isDigit_eof inp (bump inp p)) else (.number, p)
 
-/-- lexer.rs:164 `hyphen_or_minus` -/
+/-- lexer.rs:158 `hyphen_or_minus` -/
 def hyphenOrMinus (inp : Bytes) (pos : Nat) : Kind × Nat :=
   if nth inp pos 0 == 0x30 && (isDigit (nth inp pos 1) || nth inp pos 1 == 0x78 || nth inp pos 1 == 0x58) then
     (.hyphen, pos)
   else if isDigit (nth inp pos 0) then number inp pos false
   else (.hyphen, pos)
 
-/-- lexer.rs:226 -/
+/-- lexer.rs:222 `cid` -/
 def cid (inp : Bytes) (pos : Nat) : Kind × Nat := (.cid, eatWhile isDigit isDigit_eof inp pos)
 
-/-- lexer.rs:236 -/
+/-- lexer.rs:232 `eat_ident` -/
 def eatIdent (inp : Bytes) (pos : Nat) : Nat := eatWhile identCont identCont_eof inp pos
 
-/-- lexer.rs:231 -/
+/-- lexer.rs:227 `glyph_class_name` -/
 def glyphClassName (inp : Bytes) (pos : Nat) : Kind × Nat := (.namedGlyphClass, eatIdent inp pos)
 
-/-- lexer.rs:251 `ident`; `pos` is just after the first byte -/
+/-- lexer.rs:246 `ident`; `pos` is just after the first byte -/
 def ident (inp : Bytes) (pos : Nat) (afterBackslash : Bool) : Kind × Nat :=
   let startPos := pos - 1
   let p := eatIdent inp pos
   if afterBackslash then (.ident, p)
   else ((fromKeyword (inp.extract startPos p).toList).getD .ident, p)
 
-/-- lexer.rs:263 -/
+/-- lexer.rs:258 `path` -/
 def path (inp : Bytes) (pos : Nat) : Kind × Nat := (.path, eatWhile pathCont pathCont_eof inp pos)
 
-/-- the one-byte tokens of `next_token` (lexer.rs:101-:124) -/
+/-- the one-byte tokens of `next_token` (lexer.rs:97-:116) -/
 def punct (b : UInt8) : Option Kind :=
   if b == 0x3B then some .semi else if b == 0x3A then some .colon else if b == 0x2C then some .comma
   else if b == 0x5C then some .backslash else if b == 0x3D then some .eq
@@ -238,7 +238,7 @@ def punct (b : UInt8) : Option Kind :=
   else if b == 0x2A then some .asterisk else if b == 0x2B then some .plus else if b == 0x2F then some .slash
   else none
 
-/-- the `match first { … }` of `next_token` (lexer.rs:89-:128) below the `EOF` arm; `pos` is just after
+/-- the `match first { … }` of `next_token` (lexer.rs:88-:119) below the `EOF` arm; `pos` is just after
     `first`.  The arms are tried in source order; the one-byte arms are mutually exclusive literals, so they
     are grouped in `punct`. -/
 def dispatch (inp : Bytes) (st : LexState) (first : UInt8) (pos : Nat) : Kind × Nat :=
@@ -257,7 +257,7 @@ def dispatch (inp : Bytes) (st : LexState) (first : UInt8) (pos : Nat) : Kind ×
       if (first == 0x6E || first == 0x75 || first == 0x64) && st.afterNumberOrFloat then (.numberSuffix, pos)
       else ident inp pos st.afterBackslash
 
-/-- lexer.rs:86 `Lexer::next_token`.  `eofOnNul = true` is the code as it is: the first byte is compared
+/-- lexer.rs:85 `Lexer::next_token`.  `eofOnNul = true` is the code as it is: the first byte is compared
     with the sentinel value, so a real NUL byte yields `Kind::Eof` (with `len = 1`).  `eofOnNul = false`
     is the proposed fix: only running off the end yields `Eof`; a NUL byte falls through to `ident`. -/
 def nextTokenWith (eofOnNul : Bool) (inp : Bytes) (st : LexState) : Kind × LexState :=
